@@ -2,7 +2,7 @@
 From Coq Require Import ZArith.
 From Coq Require Extraction.
 From Coq Require Import ExtrOcamlBasic.
-From C06 Require Import Model ModelNative ModelCount ModelAudit.
+From C06 Require Import Model ModelNative ModelCount ModelAudit ModelCast.
 Extraction Language OCaml.
 Cd "ocaml".
 Extraction "model.ml" addZ add_wcZ add_wZ add_1Z subZ sub_wcZ sub_wZ sub_1Z cmpZ
@@ -16,5 +16,5 @@ Extraction "model.ml" addZ add_wcZ add_wZ add_1Z subZ sub_wcZ sub_wZ sub_1Z cmpZ
   op_lor_siZ op_lxor_siZ op_land_siZ mpz_to_ruint_intoZ mpz_to_rint_intoZ ruint_to_mpz_intoZ rint_to_mpz_intoZ
   scmp_wZ scmp_siZ sdiv_q_siZ smod_n1Z sizesZ exp_mod_nZ display_decZ maxconstZ
   shl_cntZ shr_cntZ addmul_wZ
-  exp_mod_scanZ normalization_scanZ inv_mod_docZ sinv_mod_docZ div32_trZ.
+  exp_mod_scanZ normalization_scanZ inv_mod_docZ sinv_mod_docZ div32_trZ scast_fltZ.
 Cd "..".
